@@ -37,9 +37,16 @@ func scenario(name string, pre []Op, threads []thr, barrierAt int, extra func(re
 			vsched.Log("!ids %s", err.Error())
 			return
 		}
+		w.e.wide = true // one fence window per execution: threads' calls may overlap
+		w.e.open()
+		w.e.resent.Store(false)
 		for _, o := range pre {
-			w.do(o, 0)
-			b, _ := json.Marshal(rec{Op: o, Dump: w.dump()})
+			got, err := w.do(o, 0)
+			rc := rec{Op: o, Res: got, Dump: w.dump()}
+			if err != nil {
+				rc.Err = err.Error()
+			}
+			b, _ := json.Marshal(rc)
 			vsched.Log("%s", b)
 		}
 		// Only the vsched.Op before each call is a preemptible point: spawning and the barrier run
@@ -78,12 +85,26 @@ func scenario(name string, pre []Op, threads []thr, barrierAt int, extra func(re
 		if e.Outcome != "ok" {
 			return vx.Verdict{Class: "harness-" + e.Outcome, Msg: fmt.Sprintf("execution ended with %s: blocked %v panics %v", e.Outcome, e.Blocked(), e.Panics()), Sig: e.Outcome}
 		}
+		resentNow := false
+		for _, l := range e.Log() {
+			resentNow = resentNow || l == "!resent"
+		}
+		if resentNow {
+			resentStreak++
+			if resentStreak <= 3 {
+				return vx.Verdict{Sig: "skipped: client re-sent a command"}
+			}
+		} else {
+			resentStreak = 0
+		}
 		r := newRef()
 		var recs []rec
 		var sig []string
 		for i, l := range e.Log() {
-			if l == "!resent" { // the redis client re-sent a command: not a valid observation
-				return vx.Verdict{Sig: "skipped: client re-sent a command"}
+			if l == "!resent" {
+				// the redis client re-sent a command (fence.go): not a valid observation — unless
+				// it happens execution after execution, then it is the implementation's behaviour
+				continue
 			}
 			if strings.HasPrefix(l, "!ids ") {
 				return vx.Verdict{Class: "lock-ids-not-distinct", Msg: l[5:], Sig: "ids"}
@@ -113,6 +134,8 @@ func scenario(name string, pre []Op, threads []thr, barrierAt int, extra func(re
 	}
 	return vx.Scenario{Name: name, Body: body, Check: check}
 }
+
+var resentStreak int
 
 func orderOf(recs []rec) string {
 	var p []string
@@ -182,6 +205,14 @@ func scenarios() []vx.Scenario {
 			[]thr{{"A", []Op{{K: "acq", L: "A"}, {K: "acq", L: "A"}, {K: "rel", L: "A"}}}, {"clock", []Op{adv(499), adv(1)}}, {"B", acqRel("B")}}, -1, nil),
 		scenario("different leases (1 s vs default)", []Op{{K: "exp", L: "A", S: 1}},
 			[]thr{{"A", acqRel("A")}, {"clock", []Op{adv(500), adv(1000)}}, {"B", acqRel("B")}}, -1, nil),
+		// the holder's Release races with the expiry of its own lease and a competitor's Acquire: with
+		// a scheduling point before EVERY redis call of Acquire/Release (redislock.go is rewritten
+		// with *redis.Redis as external type) a Release that is not one atomic store operation is
+		// split by the clock thread and B
+		scenario("holder releases | lease expires | B acquires", []Op{{K: "acq", L: "A"}},
+			[]thr{{"A", []Op{{K: "rel", L: "A"}}}, {"clock", []Op{adv(500)}}, {"B", []Op{{K: "acq", L: "B"}}}}, -1, nil),
+		scenario("holder releases | lease expires | B then C acquire", []Op{{K: "acq", L: "A"}},
+			[]thr{{"A", []Op{{K: "rel", L: "A"}}}, {"clock", []Op{adv(500)}}, {"B", []Op{{K: "acq", L: "B"}}}, {"C", []Op{{K: "acq", L: "C"}}}}, -1, nil),
 		scenario("SetExpire racing with Acquire", nil,
 			[]thr{{"A", []Op{{K: "exp", L: "A", S: 2}, {K: "acq", L: "A"}, {K: "rel", L: "A"}}}, {"clock", []Op{adv(500), adv(2000)}}, {"B", acqRel("B")}}, -1, nil),
 	}
